@@ -55,10 +55,6 @@ private def bufOps (ops : List String) : String :=
   let (_, outs) := ops.foldl step (some { used := 0, size := 0 }, [])
   String.intercalate " " outs
 
-private def rngOut (len : Int) (s : Bytes) : String :=
-  let rs := Range.parse (s.takeWhile (· ≠ 0)) len
-  String.intercalate " " (toString rs.length :: rs.map fun r => toString r.1 ++ "-" ++ toString r.2)
-
 private def h2cOut (fsize : Nat) (buf : Bytes) : String :=
   if buf.length < 9 || 9 + u24 buf 0 > buf.length then "bad-op" else
   let flen0 := u24 buf 0
@@ -108,10 +104,6 @@ def arithLine : List String → String
   | ["hoff", i0, h] =>
     match i0.toNat?, ofHex h with
     | some i, some b => hoffOut i b
-    | _, _ => "bad-op"
-  | ["rng", len, h] =>
-    match len.toNat?, ofHex h with
-    | some l, some s => if l = 0 then "bad-op" else rngOut (l : Int) s
     | _, _ => "bad-op"
   | "buf" :: ops => if ops.isEmpty then "bad-op" else bufOps ops
   | ["ckr", n, x, e] =>
